@@ -65,6 +65,8 @@ func markValue(v Value, st *State, seen map[int]bool) {
 	switch x := v.(type) {
 	case PtrVal:
 		markObj(x.Obj, st, seen)
+	case SymPtr:
+		markObj(x.Obj, st, seen)
 	case SliceVal:
 		markObj(x.Obj, st, seen)
 	case MapVal:
@@ -115,23 +117,94 @@ func markObj(id int, st *State, seen map[int]bool) {
 }
 
 // liveRegs: registers of the top frame that can still be used at the join block
-func liveRegs(fr *Frame) []ssa.Value {
+// fnLiveness caches, per function, which blocks can reach which (through at least one edge) and the position of
+// every instruction inside its block.
+type fnLiveness struct {
+	reach map[*ssa.BasicBlock]map[*ssa.BasicBlock]bool
+	index map[ssa.Instruction]int
+}
+
+func (e *Engine) liveness(fn *ssa.Function) *fnLiveness {
+	if e.liveCache == nil {
+		e.liveCache = map[*ssa.Function]*fnLiveness{}
+	}
+	if l, ok := e.liveCache[fn]; ok {
+		return l
+	}
+	l := &fnLiveness{reach: map[*ssa.BasicBlock]map[*ssa.BasicBlock]bool{}, index: map[ssa.Instruction]int{}}
+	for _, b := range fn.Blocks {
+		for i, in := range b.Instrs {
+			l.index[in] = i
+		}
+		r := map[*ssa.BasicBlock]bool{}
+		stack := append([]*ssa.BasicBlock(nil), b.Succs...)
+		for len(stack) > 0 {
+			x := stack[len(stack)-1]
+			stack = stack[:len(stack)-1]
+			if r[x] {
+				continue
+			}
+			r[x] = true
+			stack = append(stack, x.Succs...)
+		}
+		l.reach[b] = r
+	}
+	e.liveCache[fn] = l
+	return l
+}
+
+// usedLater reports whether some use of v can still execute from (block, ip): a use later in this block, in a block
+// reachable from it, or (when the block is inside a loop) anywhere in this block. A value without referrer
+// information counts as used.
+func (l *fnLiveness) usedLater(v ssa.Value, block *ssa.BasicBlock, ip int) bool {
+	refs := v.Referrers()
+	if refs == nil {
+		return true
+	}
+	reach := l.reach[block]
+	for _, r := range *refs {
+		if _, isDbg := r.(*ssa.DebugRef); isDbg {
+			continue
+		}
+		rb := r.Block()
+		if rb == nil {
+			return true
+		}
+		if reach[rb] {
+			return true
+		}
+		if rb == block && l.index[r] >= ip {
+			return true
+		}
+	}
+	return false
+}
+
+// liveRegs: registers of the top frame that can still be used at the join block: defined in a dominator (or a phi of
+// this block, already evaluated) AND with a use that can still execute. Dropping dead registers is what lets paths that
+// differ only in values nobody reads any more (a trimmed slice whose length was already tested) merge.
+func (e *Engine) liveRegs(fr *Frame) []ssa.Value {
+	l := e.liveness(fr.fn)
 	var out []ssa.Value
 	for v := range fr.regs {
 		switch d := v.(type) {
 		case *ssa.Parameter, *ssa.FreeVar:
-			out = append(out, v)
+			if l.usedLater(v, fr.block, fr.ip) {
+				out = append(out, v)
+			}
 		case ssa.Instruction:
 			db := d.Block()
 			if db == fr.block {
 				// phis of this block (already evaluated); other instrs of this block are not yet executed
-				if _, ok := v.(*ssa.Phi); ok {
+				if _, ok := v.(*ssa.Phi); ok && l.usedLater(v, fr.block, fr.ip) {
 					out = append(out, v)
 				}
 				continue
 			}
 			if db.Dominates(fr.block) {
-				out = append(out, v)
+				if l.usedLater(v, fr.block, fr.ip) {
+					out = append(out, v)
+				}
 			} else if os.Getenv("VERIF_DEBUGJOIN") != "" {
 				fmt.Fprintf(os.Stderr, "join %s block %d: dropping %s defined in block %d\n", fr.fn.Name(), fr.block.Index, v.Name(), db.Index)
 			}
@@ -195,6 +268,8 @@ func shapeOf(v Value, sb *strings.Builder) {
 		sb.WriteByte('t')
 	case PtrVal:
 		fmt.Fprintf(sb, "p%d%v", x.Obj, x.Path)
+	case SymPtr:
+		fmt.Fprintf(sb, "sp%d%v:%d:%d", x.Obj, x.Base, x.Off, x.N)
 	case SliceVal:
 		fmt.Fprintf(sb, "s%d:%d:%d:%d", x.Obj, x.Off, x.Len, x.Cap)
 	case MapVal:
@@ -261,7 +336,7 @@ func (e *Engine) shapeSig(st *State) string {
 		return st.sig
 	}
 	fr := st.top()
-	live := liveRegs(fr)
+	live := e.liveRegs(fr)
 	sort.Slice(live, func(i, j int) bool { return live[i].Name() < live[j].Name() })
 	var sb strings.Builder
 	for _, v := range live {
@@ -306,7 +381,7 @@ func (e *Engine) mergeAtJoin(a, b *State) (*State, bool) {
 	}
 	condA := And(a.pc[k:]...)
 	condB := And(b.pc[k:]...)
-	live := liveRegs(fa)
+	live := e.liveRegs(fa)
 	// every live register of a must exist in b
 	for _, v := range live {
 		if _, ok := fb.regs[v]; !ok {
